@@ -407,10 +407,19 @@ type Evidence struct {
 	Violations  int            `json:"violations"`
 }
 
+// outRoot is where evidence and replay files go: the framework directory, except for a run against a build overlay
+// (a candidate change to d2, not the tree under verification), whose files must not replace the real ones.
+func outRoot() string {
+	if os.Getenv("VERIF_OVERLAY") != "" {
+		return filepath.Join(Root, ".scratch", "overlay-run")
+	}
+	return Root
+}
+
 func WriteEvidence(ev *Evidence) {
-	os.MkdirAll(filepath.Join(Root, "evidence"), 0o755)
+	os.MkdirAll(filepath.Join(outRoot(), "evidence"), 0o755)
 	b, _ := json.MarshalIndent(ev, "", " ")
-	p := filepath.Join(Root, "evidence", ev.PropertyID+".json")
+	p := filepath.Join(outRoot(), "evidence", ev.PropertyID+".json")
 	if err := os.WriteFile(p+".tmp", append(b, '\n'), 0o644); err != nil {
 		fmt.Fprintln(os.Stderr, err)
 		os.Exit(2)
@@ -419,7 +428,7 @@ func WriteEvidence(ev *Evidence) {
 }
 
 func WriteReplay(id string, f Fail) string {
-	dir := filepath.Join(Root, "replays", id)
+	dir := filepath.Join(outRoot(), "replays", id)
 	os.MkdirAll(dir, 0o755)
 	b, _ := json.MarshalIndent(map[string]any{"property": id, "oracle": f.Oracle, "class": f.Class, "witness": f.Witness, "detail": f.Detail}, "", " ")
 	s := sha256.Sum256([]byte(f.Oracle + "\x00" + f.Class + "\x00" + f.Witness))
